@@ -584,10 +584,27 @@ struct FlatSetEngine : EngineBase {
         at0 = EI<E>::val(s[static_cast<typename Set::size_type>(i)]);
         for (auto it = s.rbegin(); it != s.rend(); ++it) ++rcount;
       });
+      // at(i), data(); at(size()) and at(max of the size_type) must throw std::out_of_range
+      Val ati, dti;
+      bool at_end_threw = false, at_max_threw = false, data_is_begin = false;
+      const Set &csr = s;
+      window([&] {
+        ati = EI<E>::val(csr.at(static_cast<typename Set::size_type>(i)));
+        dti = EI<E>::val(csr.data()[i]);
+        data_is_begin = csr.data() == &*csr.begin();
+      });
+      const bool acc_threw = threw;
+      window([&] { (void)csr.at(csr.size()); });
+      at_end_threw = threw && threw_what.find("out_of_range") != std::string::npos;
+      window([&] { (void)csr.at(std::numeric_limits<typename Set::size_type>::max()); });
+      at_max_threw = threw && threw_what.find("out_of_range") != std::string::npos;
+      threw = false;
       MonScope mm;
       auto it = m.begin();
       std::advance(it, i);
       if (!threw && (!fr.same(*m.begin()) || !bk.same(*m.rbegin()) || !at0.same(*it) || rcount != m.size())) violation("C03", "model.element_access", "front/back/operator[]/reverse iteration disagree with std::set");
+      if (acc_threw || !ati.same(*it) || !dti.same(*it) || !data_is_begin) violation("C03", "model.element_access", "at(i) / data()[i] disagree with the i-th element of std::set");
+      if (!at_end_threw || !at_max_threw) violation("C03", "model.element_access", "at(size()) / at(max) did not throw std::out_of_range");
     }
     verify();
   }
